@@ -49,7 +49,8 @@ ASSUMPTIONS = [
     "create curves named '' (UNKNOWN), truncate=True drops the columns beyond the curve list (not examined on an "
     "empty curve list); that a names list "
     "shorter than the curve list is padded with '' is taken from the code (source comment), not from the docstring; "
-    "names=[] and names longer than the curve list are not generated (undetermined); after set_data all session "
+    "names=[] names nothing (the curves keep their names, as with None: both set_data and set_data_from_df test "
+    "`not names`); names longer than the curve list are not generated (undetermined); after set_data all session "
     "names are those of a from-scratch numbering",
     "operations the model refuses (missing mnemonic -> ValueError, position out of range -> IndexError, "
     "las[k] = CurveItem with k != item.mnemonic -> KeyError) only have to leave every view unchanged; neither the "
@@ -226,8 +227,10 @@ def model_apply(M, op, n):
             w = min(w, L)
         if w < L:
             raise OutOfDomain("set_data array narrower than the curve list")
-        if names is not None and (len(names) == 0 or len(names) > max(w, L)):
-            raise OutOfDomain("names empty or longer than the curve list")
+        if names is not None and len(names) > max(w, L):
+            raise OutOfDomain("names longer than the curve list")
+        if names is not None and len(names) == 0:
+            names = None  # an empty list names nothing: the curves keep their names (`if not names` in set_data and set_data_from_df)
         if w == 0:
             return None
         while len(M) < w:
@@ -792,8 +795,10 @@ def make_machine(ctx, pair):
                 truncate = False
             final = L if truncate else w
             names = None
-            mode = data.draw(st.sampled_from(["none", "eq", "short", "dups"]))
-            if mode != "none" and final > 0:
+            mode = data.draw(st.sampled_from(["none", "eq", "short", "dups", "empty"]))
+            if mode == "empty":
+                names = []
+            elif mode != "none" and final > 0:
                 cnt = final if mode != "short" else data.draw(st.integers(1, final))
                 pool = NAMES if mode != "dups" else ["A", "A", "a", ""]
                 names = [data.draw(st.sampled_from(pool)) for _ in range(cnt)]
@@ -848,6 +853,7 @@ def alphabet(p, n):
         dict(op="set_data", rows={"extra": 0, "base": k}, names={"len": "eq", "pat": ["A", "A", "B"]}, truncate=False),
         dict(op="set_data", rows={"extra": 1, "base": k}, names={"len": "short", "pat": ["B", "a"]}, truncate=False),
         dict(op="set_data", rows={"extra": 1, "base": k}, names=None, truncate=True),
+        dict(op="set_data", rows={"extra": 1, "base": k}, names=[], truncate=False),
         dict(op="set_data", rows={"extra": 0, "base": k}, names={"len": "eq", "pat": ["a", "A"]}, truncate=True),
     ]
     return A
